@@ -87,7 +87,7 @@ case "${1:-}" in
     ;;
   C*)
     build
-    case "$1" in C03|C08|C12|C13|C18) build_cli ;; esac
+    case "$1" in C03|C08|C09|C12|C13|C18) build_cli ;; esac
     if [ "$1" = C08 ]; then
       build_sched
       exec "$ROOT/build/vcheck.sched$TAG" "$1" "${2:-${VERIF_TIER:-quick}}"
